@@ -1,3 +1,4 @@
 import MatidGen.Radii
 import MatidGen.AllGroups
 import MatidGen.Centring
+import MatidGen.WyckoffRule
